@@ -321,6 +321,40 @@ Theorem C10_several_bearers_le_mtu : forall m i o n out x,
 Proof. exact mstep_le_mtu. Qed.
 Print Assumptions C10_several_bearers_le_mtu.
 
+(* An enhanced bearer closes while the ACL link and the other bearers of the connection stay up
+   (register_eatt hooks Server.on_disconnection(channel) on the channel's EVENT_CLOSE).
+   Pinned to the source: on_disconnection pops exactly the entries of `bearer` from
+   subscribers / indication_semaphores / pending_confirmations. *)
+Theorem C10_src_Server_on_disconnection : src_matches k_Server_on_disconnection = true.
+Proof. vm_compute. reflexivity. Qed.
+Print Assumptions C10_src_Server_on_disconnection.
+
+(* frame: any step on bearer k -- a stimulus or its close -- leaves the record (ATT_MTU,
+   subscriptions, pending indication, waiting indications) of every other bearer untouched,
+   and a close does not touch the database *)
+Theorem C10_close_frame : forall m x n k out i,
+  mstep2 m x = Some (n, k, out) -> i <> k -> nth_error (m_bs n) i = nth_error (m_bs m) i.
+Proof. exact mstep2_frame. Qed.
+Print Assumptions C10_close_frame.
+
+Theorem C10_close_keeps_database : forall m j,
+  m_db (mclose m j) = m_db m /\ m_max_mtu (mclose m j) = m_max_mtu m.
+Proof. exact mclose_db. Qed.
+Print Assumptions C10_close_keeps_database.
+
+(* one indication outstanding per bearer over EVERY history in which enhanced bearers also
+   close: the close of a bearer clears that bearer's outstanding indication only, so an
+   indication on a live bearer is never transmitted while an earlier one on it is unconfirmed *)
+Theorem C10_one_indication_outstanding_with_closes : forall db max_mtu bs ops n outs,
+  23 <= max_mtu -> Forall (fun b => 23 <= b_mtu b) bs ->
+  mrun2 (minit db max_mtu bs) ops = Some (n, outs) ->
+  mind_ok2 (map bs_pending (m_bs (minit db max_mtu bs))) ops outs = true.
+Proof.
+  intros db max_mtu bs ops n outs Hx Hb Hr.
+  exact (mrun2_ind_ok ops _ n outs (minit_ok db max_mtu bs Hx Hb) Hr).
+Qed.
+Print Assumptions C10_one_indication_outstanding_with_closes.
+
 (* Bursts: several PDUs handed to the bearer before the event loop runs again (plain handlers
    and the malformed / handler-less branches act at once, task-wrapped handlers afterwards in
    arrival order, an indication released by a confirmation last -- Model: [burst]).  Every
